@@ -157,6 +157,10 @@ pub fn strings(tier: Tier) -> Vec<String> {
     }
     // mixed
     out.push("A\"é\n€😀".to_string());
+    // a byte order mark in front, in the middle, alone
+    out.push("\u{FEFF}ab".to_string());
+    out.push("a\u{FEFF}b".to_string());
+    out.push("\u{FEFF}".to_string());
     out.sort();
     out.dedup();
     out
